@@ -112,7 +112,6 @@ const (
 	opCount
 )
 
-const vwHuge = 36000
 
 // vwNoise is poorly compressible data.
 func vwNoise(n int) []byte {
@@ -171,6 +170,7 @@ func VerifWrSeq() {
 		op = verifrt.Concretize(op)
 		switch op {
 		case opWriteHuge:
+			vwHuge := verifrt.Param("HUGESZ")
 			hd := vwNoise(vwHuge)
 			k, err := w.Write(hd)
 			if closed {
@@ -285,7 +285,7 @@ func VerifWrFail() {
 		var err error
 		switch op {
 		case opWriteHuge:
-			hd := vwNoise(vwHuge)
+			hd := vwNoise(verifrt.Param("HUGESZ"))
 			_, err = w.Write(hd)
 			written = append(written, hd...)
 			verifrt.Cover("huge")
